@@ -62,6 +62,7 @@ type Engine struct {
 	timeout      int
 	maxVC        int
 	keepSMT      bool
+	replay       bool // replay candidate counterexamples on the real code
 	reachNotes   bool // per-return reachability notes (verbose / thorough)
 	debug        bool
 	oblFilter    string
@@ -319,6 +320,9 @@ func (eng *Engine) checkContract(u *FuncUnit) {
 	}
 	for _, cl := range u.C.Ensures {
 		eng.checkClause(u.Pkg, cl, pos, u, sig.Results().Len() > 0)
+	}
+	for _, cl := range u.C.EnsuresLocal {
+		eng.checkClause(u.Pkg, cl, u.Decl.Body.Rbrace, u, sig.Results().Len() > 0)
 	}
 	// loops
 	var loops []ast.Stmt
